@@ -54,6 +54,10 @@ def _main():
             sh("git -C %s checkout -- ." % WT)
         results[name] = rec
         print(name, {p: r["exit"] for p, r in rec["checks"].items()}, "imports" if rec["imports"] else "IMPORT-FAILS", flush=True)
+    if want and os.path.exists(os.path.join(D, "RESULTS.json")):  # a partial run updates the stored results
+        allr = json.load(open(os.path.join(D, "RESULTS.json")))
+        allr.update(results)
+        results = allr
     json.dump(results, open(os.path.join(D, "RESULTS.json"), "w"), indent=1)
     bad = [n for n, r in results.items() if r.get("applies") and any(c["exit"] == 1 for c in r["checks"].values())]
     und = [n for n, r in results.items() if r.get("applies") and any(c["exit"] >= 2 for c in r["checks"].values())]
